@@ -12,6 +12,7 @@ import Ymq.Lemmas.WiedemannBM
 import Ymq.Lemmas.BerlekampMasseyMg
 import Ymq.Lemmas.WiedemannDetz
 import Ymq.Lemmas.WiedemannWitness
+import Ymq.Lemmas.WiedemannWitness2
 import Ymq.Lemmas.WiedemannKrylov
 import Ymq.Lemmas.WiedemannPrimes
 import Ymq.Lemmas.WiedemannKer
@@ -246,6 +247,20 @@ theorem detz_early_termination_witness :
   simp only [Option.bind_some, detz, adv_primes, Option.bind_eq_bind]
   exact adv_loop
 
+
+/-- **Counter-witness, closed inside Lean.** `advMat2` (the matrix of
+`detz_early_termination_witness` with its digit column moved to the last position; see
+Ymq/Lemmas/WiedemannWitness2.lean) is a validated 15 × 15 integer matrix whose determinant is
+`advDet = 108 · p_0 p_1 p_2 p_3 ≠ 0` (proved through an explicit triangularisation
+`A · U = L`, `det U = 1`), and the model of `detz` returns 0 on it: the returned value is not the
+determinant. The real code returns 0 as well in both profiles. -/
+theorem detz_early_termination_witness_closed :
+    (intMatOf 15 advMat2).det = advDet ∧ advDet ≠ 0 ∧
+      (mkMat advMat2).bind (detz Ymq.Mg64.isprime64 Ymq.Arith.invMod64) = some 0 := by
+  refine ⟨adv2_det, advDet_ne_zero, ?_⟩
+  rw [adv2_valid]
+  simp only [Option.bind_some, detz, adv2_primes, Option.bind_eq_bind]
+  exact adv2_loop
 
 /-! ### `select_crtprimes` -/
 
